@@ -80,6 +80,11 @@ Definition check_hist (c : hist_case) : N :=
              code (initok && list_eqb obs_eqb m observed) (initok && list_eqb obs_prop_eqb m observed)
   end.
 
+(* The repaired SetBFTParameters rejects a validator list whose aggregate weight does not fit uint64; below that bound its
+   uint64 arithmetic coincides with the model's unbounded N. *)
+Definition set_params64 (batch : nat) (s : store) (pcT certT : N) (vals : list (addr * N)) : res store :=
+  if 18446744073709551616 <=? total_weight vals then Error 14 else set_params batch s pcT certT vals.
+
 (* ---- generator keys (BFT/GenKeys.v), threaded next to the vote model ---- *)
 Definition gens_of_addrs (l : list N) : generators := map (fun a => (a, a)) l.
 Definition gobs_eqb (a b : obs) : bool :=
@@ -126,7 +131,7 @@ Fixpoint model_obs_g (batch : nat) (s : store) (gs : @kstore generators) (l : li
       match chg with
       | None => with_gens (obs_of s1 b contra imp) gs1 (h_height b) (oldest_height (v_infos (s_votes s1))) :: model_obs_g batch s1 gs1 tl
       | Some c =>
-        match set_params batch s1 (c_pc c) (c_cert c) (c_vals c) with
+        match set_params64 batch s1 (c_pc c) (c_cert c) (c_vals c) with
         | Error _ => [err_obs 2 contra]
         | Ok s2 =>
           let gs2 := kinsert gs1 (current_height (s_votes s1) + 1) (gens_of_addrs gaddrs) in
@@ -140,7 +145,7 @@ Definition hist_case_g : Type := nat * N * pchange * list N * list (block * list
 
 Definition check_hist_g (c : hist_case_g) : N :=
   let '(batch, gh, ini, ini_gens, blocks, initok, observed) := c in
-  match init_store batch gh ini with
+  match set_params64 batch (genesis_store gh) (c_pc ini) (c_cert ini) (c_vals ini) with
   | Error _ => let ok := negb initok && match observed with [] => true | _ => false end in code ok ok
   | Ok s0 => let gs0 := kinsert [] (gh + 1) (gens_of_addrs ini_gens) in
              let m := model_obs_g batch s0 gs0 blocks in
